@@ -3,7 +3,9 @@ package query
 //verif:property C13
 //verif:pkg lib/query
 //verif:setup VerifC13Setup
+//verif:setup VerifC13LoadSetup
 //verif:harness VerifC13ParallelQueries mode=bv tier=quick split=8
+//verif:harness VerifC13FileLoad mode=bv tier=quick split=4
 
 import (
 	"github.com/mithrandie/csvq/lib/parser"
@@ -71,5 +73,42 @@ func VerifC13ParallelQueries() {
 	if err == nil {
 		verifObserve("rows", int64(view.RecordLen()))
 	}
+	verifReach("end")
+}
+
+var verifC13Load []parser.Statement
+
+func VerifC13LoadSetup() {
+	verifC13Load = verifParse("select * from `f.csv`; select * from `g.ltsv`; select * from `h.jsonl`;")
+}
+
+// Loading files: the reader goroutine and the converter goroutine of readRecordSet (CSV, LTSV) and
+// of the JSON Lines loader, under the race monitor, for a well-formed file and for one whose third
+// line is malformed (the error path).
+func VerifC13FileLoad() {
+	bad := verifChoice("malformed", 2) == 1
+	if bad {
+		verifFileWrite("f.csv", "a,b\n1,2\n3\n4,5\n")
+		verifFileWrite("g.ltsv", "a:1\tb:2\nnocolon\n")
+		verifFileWrite("h.jsonl", "{\"a\":1}\n{\"a\":\n")
+	} else {
+		verifFileWrite("f.csv", "a,b\n1,2\n3,4\n5,6\n")
+		verifFileWrite("g.ltsv", "a:1\tb:2\na:3\tb:4\n")
+		verifFileWrite("h.jsonl", "{\"a\":1}\n{\"a\":2}\n")
+	}
+	which := verifChoice("file", 3)
+	tx := verifNewTx()
+	tx.Flags.Quiet = true
+	tx.Flags.CPU = 2
+	proc := NewProcessor(tx)
+	verifPreemptions(verifBound(0, 1))
+	verifRaces(true)
+	verifSchedules(true)
+	_, err := proc.Execute(ContextForStoringResults(verifCtx()), verifC13Load[which:which+1])
+	verifSchedules(false)
+	verifRaces(false)
+	verifAssert("a well-formed file loads, a malformed one is refused", (err != nil) == (bad && which != 0 || bad && which == 0))
+	_ = proc.ReleaseResourcesWithErrors()
+	verifObserveBool("error", err != nil)
 	verifReach("end")
 }
